@@ -999,6 +999,69 @@ def run_backref_exhaustion(ck, exe):
                            "runs": 2, "expect": "no-violation"})
 
 
+def run_rawfree_failure(ck, exe):
+    """the pool's raw-free callback reports an error (as a failing munmap does) for the k-th .. k+count-1-th region offered to it, during normal
+    operation (large objects freed) or inside pool_destroy: every region the pool took is still offered to the callback exactly once, none
+    is offered or used again after its offer, pool_destroy reports the error, the ledger is accepted by the Lean PoolLedger"""
+    bad, runs, batch, refused_total = [], 0, [], 0
+    quick = ck.tier == "quick"
+    rng = ck.rng
+    shapes = []
+    for pol in ("M pool 1 0 0 0 0 1", "M pool 1 0 0 65536 0 1", "M pool 1 0 1 0 0 1"):
+        for nbig in ((3, 6) if quick else (2, 3, 5, 8)):
+            shapes.append((pol, nbig))
+    for pol, nbig in shapes:
+        sizes = [rng.choice([2 << 20, 3 << 20, 5000000, 9 << 20, (4 << 20) + 4096]) for _ in range(nbig)]
+        body = ["P 1", pol, "0 pmalloc 1 0 100", "0 pmalloc 1 1 9000", "0 pmalloc 1 2 300000"]
+        body += ["0 pmalloc 1 %d %d" % (10 + i, sz) for i, sz in enumerate(sizes)]
+        # how many regions does this pool own at the end (fault-free run)?
+        v0, ol0 = run_lines(exe, body + ["P 1", "M destroy 1"])
+        rf = [l for l in ol0 if l.startswith("RAWFREE 1 ")]
+        nreg = int(rf[0].split()[2].split("=")[1]) if rf else 0
+        if v0 or nreg < 2:
+            bad.append(("raw-free fault base run (%s, %d large objects): %d regions" % (pol, nbig, nreg), body + ["P 1", "M destroy 1"], v0 or ["VIOLATION setup fewer than 2 regions"]))
+            break
+        windows = [(k, c) for k in range(1, nreg + 1) for c in (1, 2, 1000)]
+        if quick and len(windows) > 14:
+            windows = windows[:8] + rng.sample(windows[8:], 6)
+        for (k, cnt) in windows:
+            for when in ("destroy", "free"):
+                if when == "destroy":
+                    lines = body + ["P 1", "M freefail 1 %d %d" % (k, cnt), "M destroy 1"]
+                else:
+                    # the refusals hit regions released while the pool is in use (large objects above the cache limits are returned at once)
+                    lines = body + ["P 1", "M freefail 1 %d %d" % (k, cnt)] + ["0 pfree 1 %d" % (10 + i) for i in range(nbig)] + \
+                        ["0 !pmalloc 1 40 %d" % sizes[0], "0 !pmalloc 1 41 100", "0 pmsize 1 0", "0 pmsize 1 2", "P 1", "M destroy 1"]
+                v, ol = run_lines(exe, lines)
+                runs += 1
+                rf = [l for l in ol if l.startswith("RAWFREE 1 ")]
+                nref = int(rf[0].split()[3].split("=")[1]) if rf else -1
+                refused_total += max(nref, 0)
+                ck.count(len(lines), ("rawfree-fault", pol, nbig, when, min(k, 4), cnt, min(nref, 3)))
+                batch.append((lines, ledger_text(ol)))
+                if v:
+                    bad.append(("raw-free callback fails for offers %d..%d (%s; %d regions)" % (k, k + cnt - 1, when, nreg), lines, v))
+                    break
+            if bad:
+                break
+        if bad:
+            break
+    n, lb = ledger_validate(batch)
+    ck.traces_validated += runs
+    ck.extra["rawfree_fault_runs"] = {"runs": runs, "offers_refused": refused_total, "ledger_events": n}
+    ck.oblige("monitor:raw-free callback reporting an error for the k-th region offered (inside pool_destroy / while the pool is in use): every region is "
+              "still offered exactly once, none offered or used again, pool_destroy reports the error", "correspondence", not bad, [(n_, v[:2]) for n_, _, v in bad][:2])
+    ck.oblige("corr:raw-call log of pools whose raw-free callback fails is accepted by the Lean PoolLedger", "correspondence", not lb, [w for _, w in lb][:2])
+    for name, lines, v in bad[:1]:
+        kind = v[0].split()[1]
+        ck.counterexample("pool:rawfree-fault:%s:%s" % (kind, hashlib.sha1("\n".join(lines).encode()).hexdigest()[:8]), "%s: %s" % (name, v[0]),
+                          {"engine": "E-REAL", "harness": "harness/c18/pools.cpp", "script": lines, "observed": v[:5], "runs": 2, "expect": "no-violation"})
+    if lb and not bad:
+        lines, ev = lb[0]
+        ck.counterexample("pool:rawfree-fault:ledger", "raw-call log rejected by the Lean PoolLedger at `%s`" % ev,
+                          {"engine": "E-REAL", "harness": "harness/c18/pools.cpp", "script": lines, "runs": 1, "expect": "no-violation"})
+
+
 REMAP_KEY = "remap-size-wraps"
 CXX_KEY = "cxx-allocator-n-times-sizeof-wraps"
 
@@ -1058,6 +1121,7 @@ def run(ck):
     run_pools(ck, pools, reset_defect)
     run_first_touch(ck, pools)
     run_backref_exhaustion(ck, pools)
+    run_rawfree_failure(ck, pools)
     run_oom(ck, oom, c)
     run_first_touch_os(ck, oom)
     run_huge_realloc(ck, oom, pools)
